@@ -83,6 +83,39 @@ def regress(ck):
             if r.returncode != 0:
                 tail = r.stderr[-600:]
                 ck.violation(content, "manifest that includes itself (%s): ninja recursed without bound: %s" % (name, " ".join(tail.split())[:400]))
+        # cycles among a rule's own variables (a documented error: "cycle in rule variables") in every combination of
+        # 1-3 reserved names, for a build statement with and without bindings of its own, evaluated as the build would
+        names = ["command", "description", "depfile", "rspfile", "rspfile_content", "dyndep"]
+        n = 0
+        import itertools
+        for k in (1, 2, 3):
+            for combo in itertools.permutations(names, k):
+                if "command" not in combo and k < 3:
+                    continue
+                for own in (b"", b"  flags = -O2\n", b"  description = D $out\n", b"  pool = console\n"):
+                    if own.startswith(b"  description") and "description" in combo:
+                        continue
+                    rule = b"rule r\n"
+                    if "command" not in combo:
+                        rule += b"  command = c $" + combo[0].encode() + b"\n"
+                    for i, v in enumerate(combo):
+                        rule += b"  " + v.encode() + b" = x $" + combo[(i + 1) % k].encode() + b" y\n"
+                    if "rspfile" in combo and "rspfile_content" not in combo:
+                        rule += b"  rspfile_content = z\n"
+                    if "rspfile_content" in combo and "rspfile" not in combo:
+                        rule += b"  rspfile = o.rsp\n"
+                    content = rule + b"build o: r i\n" + own + b"build p: r o\n"
+                    pth = os.path.join(root, "cyc%d" % n)
+                    n += 1
+                    open(pth, "wb").write(content)
+                    r = subprocess.run([exe, pth], capture_output=True, text=True, errors="replace", timeout=120,
+                                       env=dict(os.environ, ASAN_OPTIONS="detect_leaks=0:detect_stack_use_after_return=0"))
+                    ck.res.evaluations += 1
+                    ck.res.extra["rule_variable_cycle_manifests"] += 1
+                    if r.returncode != 0:
+                        ck.violation(content, "cyclic rule variables (%s; build statement %s bindings of its own): ninja crashed instead of reporting the cycle: %s"
+                                     % (" -> ".join(combo), "with" if own else "without", " ".join(r.stderr[-500:].split())[:400]))
+                        return
     finally:
         shutil.rmtree(root, ignore_errors=True)
 
